@@ -732,3 +732,63 @@ func containerHandledBefore(cb *ssa.Function, b *ssa.BasicBlock) bool {
 	r := flow.FindPath(flow.Point{Block: cb.Blocks[0]}, func(x ssa.Instruction) bool { return x == first }, isTr, nil)
 	return !r.Found
 }
+
+// checkBlobExamined: translateOneDataBlob hands a blob back unexamined (nil error, no decode) only when it is nil or
+// empty. With those two exits pruned, no path from entry reaches a nil-error return without passing the event
+// deserialisation: an "only proto3" / "only small blobs" shortcut lets names inside the skipped blobs through
+// untranslated and unchecked (the serializer also decodes JSON-encoded event blobs).
+func checkBlobExamined(c *Ctx, res *report.Result, rule string) {
+	f := resolve(c, res, rule, anchor{"interceptor", "", "translateOneDataBlob"})
+	if f == nil {
+		return
+	}
+	isDecode := func(x ssa.Instruction) bool {
+		call, ok := x.(ssa.CallInstruction)
+		return ok && call.Common().IsInvoke() && call.Common().Method.Name() == "DeserializeEvents"
+	}
+	isOKReturn := func(x ssa.Instruction) bool {
+		ret, ok := x.(*ssa.Return)
+		if !ok {
+			return false
+		}
+		rs := flow.Ret(ret)
+		return len(rs) > 0 && flow.IsNilConst(rs[len(rs)-1])
+	}
+	legit := func(a, b *ssa.BasicBlock) bool {
+		iff := lastIfOf(a)
+		if iff == nil || len(a.Succs) != 2 {
+			return false
+		}
+		side := b == a.Succs[0]
+		bo, isB := iff.Cond.(*ssa.BinOp)
+		if !isB {
+			return false
+		}
+		// blob == nil (true side)
+		if (bo.Op == token.EQL || bo.Op == token.NEQ) && (flow.IsNilConst(bo.Y) || flow.IsNilConst(bo.X)) {
+			isNil := side
+			if bo.Op == token.NEQ {
+				isNil = !side
+			}
+			return isNil
+		}
+		// len(blob.Data) == 0 (true side)
+		if k, isK := flow.ConstInt(bo.Y); isK && k == 0 {
+			if lc, isC := bo.X.(*ssa.Call); isC {
+				if bi, isBi := lc.Call.Value.(*ssa.Builtin); isBi && bi.Name() == "len" {
+					if p, _ := flow.FieldPath(lc.Call.Args[0]); strings.HasSuffix(p, ".Data") {
+						switch bo.Op {
+						case token.EQL:
+							return side
+						case token.NEQ, token.GTR:
+							return !side
+						}
+					}
+				}
+			}
+		}
+		return false
+	}
+	r := flow.FindPath(flow.Point{Block: f.Blocks[0]}, isOKReturn, isDecode, func(a, b *ssa.BasicBlock) bool { return !legit(a, b) })
+	res.Check(!r.Found, rule, "translateOneDataBlob: only nil or empty blobs are passed on without being decoded", fnPos(c.Prog, f), "every other nil-error return lies behind DeserializeEvents", "a non-empty blob can be returned with a nil error without having been decoded (path "+flow.BlockPath(r.Via)+"): the names inside it are neither translated nor access-checked")
+}
